@@ -76,6 +76,58 @@ def gen(ctx):
     return docs
 
 
+def expected_accept(doc):
+    """independent statement of the nesting rule for the generator's restricted syntax: a key path of m segments is refused
+    when m >= LIMIT; inside one key/value statement the number of open `[` / `{` plus the tables created by the dotted keys
+    of the enclosing key/values must stay below LIMIT."""
+    import re
+    for line in doc.split("\n"):
+        line = line.strip()
+        if not line:
+            continue
+        if line.startswith("[") and "=" not in line:
+            segs = line.strip("[]").split(".")
+            if len(segs) >= LIMIT:
+                return False
+            continue
+        counter = 0
+        pending = []          # charges to release when the value of an inline key ends (per open '{')
+        i = 0
+        toks = re.findall(r"[A-Za-z0-9_]+(?:\.[A-Za-z0-9_]+)*\s*=|\[|\]|\{|\}|,|[0-9]+", line)
+        stack = []
+        first_key = True
+        for t in toks:
+            if t.endswith("="):
+                m = len(t[:-1].strip().split("."))
+                if m >= LIMIT:
+                    return False
+                if counter + (m - 1) >= LIMIT and m > 1:
+                    return False
+                counter += m - 1
+                stack.append(("key", m - 1))
+            elif t in "[{":
+                counter += 1
+                if counter >= LIMIT:
+                    return False
+                stack.append((t, 1))
+            elif t in "]}":
+                # close: release the container and the key charge of the value that just ended (if any)
+                while stack and stack[-1][0] == "key":
+                    counter -= stack.pop()[1]
+                if stack:
+                    counter -= stack.pop()[1]
+                # the container itself was the value of an enclosing key: that key's charge ends with it
+                while stack and stack[-1][0] == "key":
+                    counter -= stack.pop()[1]
+            elif t == ",":
+                while stack and stack[-1][0] == "key":
+                    counter -= stack.pop()[1]
+            else:
+                while stack and stack[-1][0] == "key":
+                    counter -= stack.pop()[1]
+    return True
+
+
 def run(ctx):
     translate(ctx)
     mods = ["TomlVerif.Gen.CheckLex", "TomlVerif.Props.C05", "driver"]
@@ -108,6 +160,10 @@ def run(ctx):
                 maxdepth = max(maxdepth, dep)
                 if dep > K:
                     bad = f"accepted with nesting depth {dep} > {K}"
+                elif not expected_accept(d):
+                    bad = f"accepted (decoded depth {dep}) although the nesting of one statement reaches the limit of {LIMIT}"
+            elif i.startswith("err") and expected_accept(d):
+                bad = f"refused although every statement nests below the limit of {LIMIT}"
             if bad:
                 ctx.violation(f"{len(d)}-byte document `{d[:50]}…`: {bad}", {"mode": "stack", "case": ln, "text": d, "impl": i, "model": m, "witness": ln, "build": "release" if release else "debug"})
             if i != m:
